@@ -66,6 +66,17 @@ func (r *RecState) Reset() {
 	r.mu.Unlock()
 }
 
+// ResetCounts forgets which secrets were revoked / renewed so far. Boot (the start of
+// an execution) calls it: secrets issued while an image was built keep their ids in every
+// execution started from that image, and a revocation counted in an EARLIER execution
+// must not satisfy "this secret was revoked" in a later one.
+func (r *RecState) ResetCounts() {
+	r.mu.Lock()
+	r.Revoked = map[string]int{}
+	r.Renewed = map[string]int{}
+	r.mu.Unlock()
+}
+
 func (r *RecState) OpCalls() []RecCall {
 	r.mu.Lock()
 	defer r.mu.Unlock()
